@@ -44,7 +44,7 @@ def run(chk, tier):
     n += dup.dupfield(chk, P, "hwloc_internal_memattr_s", [("hwloc_internal_memattrs_dup", ["imattrs"])])
     n += dup.dupfield(chk, P, "hwloc_internal_cpukind_s", [("hwloc_internal_cpukinds_dup", ["kinds"])])
     n += dup.dupfield(chk, P, "hwloc_infos_s", [("hwloc__tma_dup_infos", ["newi"])])
-    chk.floor("R-DUPFIELD", "record fields examined", n, 100)
+    chk.floor("R-DUPFIELD", "record fields examined", n, 85)
     chk.rule("R-NOALIAS", "no pointer loaded from the source instance is stored into the copy (value flow through locals), whole-record memcpy re-assigns every pointer field")
     m = 0
     for fn, u, srcp in (("hwloc__duplicate_object", "topology.c", (3,)), ("hwloc__topology_dup", "topology.c", (1,)),
@@ -54,7 +54,7 @@ def run(chk, tier):
         m += dup.shallow_copies(chk, P, E, fn, u, srcp, SHALLOW)
     for fn, u in (("hwloc_internal_memattrs_dup", "memattrs.c"), ("hwloc_internal_cpukinds_dup", "cpukinds.c"), ("hwloc__duplicate_object", "topology.c")):
         m += dup.memcpy_pointer_fields(chk, P, fn, u)
-    chk.floor("R-NOALIAS", "pointer stores on the copy examined", m, 40)
+    chk.floor("R-NOALIAS", "pointer stores on the copy examined", m, 30)
     chk.rule("R-CACHEINV", "validity flags of pointer caches are cleared and cached object pointers reset on the copy")
     dup.cacheinv(chk, P)
     chk.rule("R-TMA", "no plain allocator on the tma duplication path (see C19)")
@@ -62,7 +62,7 @@ def run(chk, tier):
     shmem.tma_rule(chk, P, owners=c19.TMA_OWNERS)
     chk.rule("R-EXTENT", "sibling agreement on the extent of bulk copies of one array field")
     ne = extent.run(chk, P, list(P.units), fields=set(FIELDS))
-    chk.floor("R-EXTENT", "bulk operations on distances/memattr arrays", ne, 15)
+    chk.floor("R-EXTENT", "bulk operations on distances/memattr arrays", ne, 11)
     chk.decided += ["nothing is forgotten: every field of topology/object/distances/memattr/cpukind/infos records is set on the copy",
                     "the copy shares no mutable storage: no source pointer stored in the copy except object userdata; copied arrays have the allocation's extent",
                     "pointer caches are invalidated so that they are rebuilt against the new tree"]
